@@ -58,7 +58,27 @@ def seeds():
 
 p = f'{V}/DESIGN.md'
 s = open(p).read()
-for name, fn in (('BUILT', built), ('SEEDS', seeds)):
+def findings():
+    import re as _re
+    rows_f, rows_k = [], []
+    for line in open(f'{V}/known_findings.txt'):
+        line = line.strip()
+        m = _re.match(r'fixed:\s+property=(\w+)\s+(\w+)\s+(.*)', line)
+        if m:
+            d = m.group(3).replace('|', '/')
+            rows_f.append(f"| {m.group(1)} | `fix:` {m.group(2)} | {d[:420]}{' …' if len(d) > 420 else ''} |")
+            continue
+        m = _re.match(r'finding:\s+property=(\w+)\s+id=(\S+)\s+(.*)', line)
+        if m:
+            d = m.group(3).replace('|', '/')
+            rows_k.append(f"| {m.group(1)} | {m.group(2)} | {d[:420]}{' …' if len(d) > 420 else ''} |")
+    out = [f'**Repaired in /repo ({len(rows_f)} `fixed:` entries; each is one minimal unguarded commit, the touched packages\' tests pass, and the model follows the repaired code — a recurrence is reported as a VIOLATION):**', '',
+           '| property | commit | what failed |', '|---|---|---|'] + sorted(rows_f)
+    out += ['', f'**Recorded as known findings ({len(rows_k)} entries; the check prints KNOWN-FINDING for exactly these and exits 0; anything else is a VIOLATION):**', '',
+            '| property | finding id | what fails (minimal input) |', '|---|---|---|'] + sorted(rows_k)
+    return '\n'.join(out)
+
+for name, fn in (('BUILT', built), ('SEEDS', seeds), ('FINDINGS', findings)):
     b, e = f'<!-- BEGIN {name} -->', f'<!-- END {name} -->'
     if b in s:
         s = s[:s.index(b) + len(b)] + '\n' + fn() + '\n' + s[s.index(e):]
